@@ -317,6 +317,56 @@ Definition m_lc_composed_cmp (a b : nrepr) : outcome comparison :=
 (* Hash for Name / RelativeName / ParsedName *)
 Definition m_name_hash (a : nrepr) : outcome bytes := iters_hash LOOP_FUEL (iter_of a).
 
+(* ---------------------------------------- ParsedName::parent / split_first
+
+   Both walk from self.pos over compression pointers (LabelType::peek +
+   seek) to the first ordinary label, then set pos behind it and reduce
+   name_len.  The `compressed` flag is left alone (T1:
+   parent_keeps_compressed_flag); the variant that clears it once a pointer
+   was crossed is kept as `keeps = false` for the refutation. *)
+Definition P_PEEK_UNWRAP : N := 25.    (* LabelType::peek(..).unwrap() / seek(..).unwrap() *)
+Definition P_ROOT_UNREACHABLE : N := 26.
+
+Fixpoint first_label (fuel : nat) (m : bytes) (cur : N) (crossed : bool) : outcome (N * N * bool) :=
+  match fuel with
+  | O => OutOfFuel
+  | S f =>
+      if mlen m - cur <? 1 then Panic P_PEEK_UNWRAP else
+      match get m cur with
+      | None => Panic P_INDEX
+      | Some b =>
+          if b <=? 63 then (if b =? 0 then Panic P_ROOT_UNREACHABLE else Ok (cur, b + 1, crossed))
+          else if 192 <=? b then
+            if mlen m - cur <? 2 then Panic P_PEEK_UNWRAP else
+            match get m (cur + 1) with
+            | None => Panic P_INDEX
+            | Some c =>
+                let p := c + 256 * (b mod 64) in
+                if mlen m <? p then Panic P_PEEK_UNWRAP else first_label f m p true
+            end
+          else Panic P_PEEK_UNWRAP
+      end
+  end.
+
+Definition parent_gen (keeps : bool) (m : bytes) (p : pname) : outcome (option pname) :=
+  if pn_len p =? 1 then Ok None else
+  do r <- first_label (S (length m)) m (pn_pos p) false;
+  let '(t, len, crossed) := r in
+  if pn_len p <? len then Panic P_UNDERFLOW else
+  Ok (Some (mkPName (t + len) (pn_len p - len)
+                    (if keeps then pn_compressed p else (if crossed then false else pn_compressed p))
+                    (pn_end p))).
+Definition m_parent := parent_gen parent_keeps_compressed_flag.
+(* split_first leaves the same remaining name (the label it returns is not
+   compared here) *)
+Definition m_split_first_rest := parent_gen split_first_keeps_compressed_flag.
+
+Fixpoint parent_n (k : nat) (m : bytes) (p : pname) : outcome pname :=
+  match k with
+  | O => Ok p
+  | S k' => do r <- m_parent m p; match r with Some p' => parent_n k' m p' | None => Ok p end
+  end.
+
 (* ------------------------------------------------------------------ CharStr *)
 
 Definition m_charstr_eq (a b : bytes) : bool :=
@@ -689,6 +739,19 @@ Definition c04_parsed_cmp (m : bytes) (pos : N) (b : bytes) :=
   do r <- c04_parsed m pos; m_name_cmp r (NFlat b).
 Definition c04_parsed_hash (m : bytes) (pos : N) :=
   do r <- c04_parsed m pos; m_name_hash r.
+(* the name parsed at pos, reduced k times by parent(), against a flat name:
+   name_eq, name_cmp, composed_cmp, lowercase_composed_cmp, then the hash feed *)
+Definition c04_parsed_suffix (m : bytes) (pos : N) (k : nat) (b : bytes)
+  : outcome (bool * comparison * comparison * comparison * bytes) :=
+  do p <- parse_ref m pos (mlen m);
+  do q <- parent_n k m p;
+  let r := NParsed m q in
+  do e <- m_name_eq r (NFlat b);
+  do c <- m_name_cmp r (NFlat b);
+  do cc <- m_composed_cmp r (NFlat b);
+  do lc <- m_lc_composed_cmp r (NFlat b);
+  do h <- m_name_hash r;
+  Ok (e, c, cc, lc, h).
 (* a chain of a relative and an absolute flat name against a flat name *)
 Definition c04_chain_eq (l r b : bytes) := m_name_eq (NChain (NFlat l) (NFlat r)) (NFlat b).
 Definition c04_chain_cmp (l r b : bytes) := m_name_cmp (NChain (NFlat l) (NFlat r)) (NFlat b).
